@@ -7,7 +7,7 @@ use crate::rng::Rng;
 use serde_json::json;
 use tls_parser::*;
 
-pub const RULE: &str = "ClientHello values obtained by parsing reference-encoded TLS and DTLS hellos and through new(); every trait accessor compared with the struct field (slices by address); rand_time/rand_bytes for 32-byte randoms with boundary leading words (0, 1, 0x7fffffff, 0x80000000, 0xffffffff, each single-byte pattern, every single bit) + random words, and for constructed randoms of length 4..64; cipher_suites()/get_ciphers()/get_cipher() against per-id registry lookup for all 65536 ids; new()/get_version() store-and-return. distinct_nontrivial = distinct (family, source, presence flags, length classes, leading word class) tuples";
+pub const RULE: &str = "ClientHello values obtained by parsing reference-encoded TLS and DTLS hellos and through new(); every trait accessor compared with the struct field (slices by address); rand_time/rand_bytes for 32-byte randoms with boundary leading words (0, 1, 0x7fffffff, 0x80000000, 0xffffffff, each single-byte pattern, every single bit) + random words, and for constructed randoms of length 4..64; cipher_suites()/get_ciphers()/get_cipher() against per-id registry lookup for all 65536 ids, and on constructed TLS (new()) and DTLS (struct literal) hellos whose cipher / compression lists have 0..2^20 entries (size classes around 2^7, 2^8, 2^12, 2^15, 2^16 and beyond, i.e. also lists that could never be parsed from the wire); new()/get_version() store-and-return. distinct_nontrivial = distinct (family, source, presence flags, length classes, leading word class) tuples";
 pub const ASSUMPTIONS: &[&str] = &["constructed randoms shorter than 4 bytes are not judged", "registry lookup itself is judged by C12; here only the per-id mapping in order"];
 
 fn same(a: &[u8], b: &[u8]) -> bool {
@@ -214,4 +214,37 @@ pub fn run(ctx: &mut Ctx) {
         ctx.shape(&("ids", idx));
     });
     ctx.mark_exhaustive("cipher_suites()/get_ciphers()/get_cipher() for all 65536 ids");
+
+    // ------------------------------------------------ constructed hellos (TLS new() and DTLS struct literal) with
+    // lists of every size class, far beyond what fits on the wire: one result per advertised id, in order
+    const COUNTS: [usize; 20] = [0, 1, 2, 127, 128, 255, 256, 257, 4095, 4096, 32766, 32767, 32768, 32769, 65535, 65536, 65537, 70000, 131072, 1 << 20];
+    ctx.floor("long-lists", COUNTS.len() as u64 * 2);
+    ctx.sweep("long-lists", COUNTS.len() as u64 * 2, |ctx, idx| {
+        let mut rng = Rng::new(idx ^ 0x10C15);
+        let n = COUNTS[(idx / 2) as usize];
+        let listed: Vec<u16> = tls_parser::CIPHERS.keys().copied().collect();
+        let ids: Vec<TlsCipherSuiteID> = (0..n).map(|k| TlsCipherSuiteID(if k % 3 == 0 { listed[rng.usize(0, listed.len() - 1)] } else { rng.u16() })).collect();
+        let comp: Vec<TlsCompressionID> = (0..(n % 70001)).map(|k| TlsCompressionID(k as u8)).collect();
+        let random = rng.bytes(32);
+        let sid = rng.bytes(7);
+        let ext = rng.bytes(9);
+        ctx.count("long-lists");
+        ctx.shape(&("long-lists", idx % 2, n));
+        if idx % 2 == 0 {
+            let ch = TlsClientHelloContents::new(0x0303, &random, Some(&sid), ids.clone(), comp.clone(), Some(&ext));
+            check_trait(ctx, "tls-new-long", &ch, TlsVersion(0x0303), &random, Some(&sid), &ch.ciphers, &ch.comp, Some(&ext));
+            let gc = ch.get_ciphers();
+            ctx.eval();
+            if gc.len() != n || gc.iter().zip(ids.iter()).any(|(g, id)| g.map(|x| x as *const TlsCipherSuite) != TlsCipherSuite::from_id(id.0).map(|x| x as *const TlsCipherSuite)) {
+                ctx.violation("c15:tls-new-long:get_ciphers".into(), json!({"ciphers": n, "returned": gc.len()}));
+            }
+        } else {
+            let cookie = rng.bytes(3);
+            let ch = DTLSClientHello { version: TlsVersion(0xfefd), random: &random, session_id: Some(&sid), cookie: &cookie, ciphers: ids.clone(), comp: comp.clone(), ext: Some(&ext) };
+            check_trait(ctx, "dtls-literal-long", &ch, TlsVersion(0xfefd), &random, Some(&sid), &ch.ciphers, &ch.comp, Some(&ext));
+        }
+        if ctx.wants_sample() {
+            ctx.sample(json!({"source": if idx % 2 == 0 { "tls-new-long" } else { "dtls-literal-long" }, "ciphers": n, "compressions": comp.len()}));
+        }
+    });
 }
